@@ -413,6 +413,14 @@ func TestVerifC13(t *testing.T) {
 			obs := vGuard(func() vSx { return vC13RunParse(c) })
 			k.record(c, obs, len(obs.l) == 4)
 			k.count("family", "parser")
+		case 4:
+			var oracle string
+			obs := vGuard(func() vSx { o, m := vC13RunHandshake(c); oracle = m; return o })
+			idx := k.record(c, obs, c.l[2].int() != 0)
+			k.count("family", "handshake")
+			if oracle != "" {
+				k.fail(idx, c.size(), "handshake-rfc", "", oracle)
+			}
 		}
 	}
 	if k.replay != nil {
@@ -422,7 +430,15 @@ func TestVerifC13(t *testing.T) {
 	for _, c := range k.corpus() {
 		runOne(c)
 	}
-	n := k.N(500, 6000)
+	for kind := 0; kind < 2; kind++ {
+		for tamper := 0; tamper < 10; tamper++ {
+			if kind == 0 && tamper > 7 {
+				continue
+			}
+			runOne(vL(vZ(4), vI(kind), vI(tamper)))
+		}
+	}
+	n := k.N(800, 4000)
 	for i := 0; i < n; i++ {
 		runOne(vC13GenSession(k.rnd, k.thorough()))
 		if len(lastWire) > 0 && len(lastWire) <= 3000 && k.rnd.chance(1, 2) {
